@@ -349,5 +349,5 @@ def check_case(case):
     return r
 
 
-PARTS = [Part("espirit", check_case, {"quick": 1500, "thorough": 5000}, strategy=st_case,
+PARTS = [Part("espirit", check_case, {"quick": 1500, "thorough": 15000}, strategy=st_case,
               shrink={"quick": False, "thorough": True})]
